@@ -37,34 +37,34 @@ theorem run_zero (P : Policy) (lf : LoopForm) (c : Cache) (bs : List Behaviour) 
     run P lf 0 c bs = ⟨[], c, bs⟩ := rfl
 
 theorem run_succ_ok (P : Policy) (lf : LoopForm) (n : Nat) (c : Cache) (bs : List Behaviour)
-    (h : (step c bs).entry.reply = .ok) :
-    run P lf (n+1) c bs = ⟨[(step c bs).entry], (step c bs).cache, (step c bs).rest⟩ := by
+    (h : (step P c bs).entry.reply = .ok) :
+    run P lf (n+1) c bs = ⟨[(step P c bs).entry], (step P c bs).cache, (step P c bs).rest⟩ := by
   simp [run, h]
 
 theorem run_succ_retry (P : Policy) (n : Nat) (c : Cache) (bs : List Behaviour) (e : ErrClass)
-    (h : (step c bs).entry.reply = .err e) (hr : P.retryable e = true) :
+    (h : (step P c bs).entry.reply = .err e) (hr : P.retryable e = true) :
     run P .canonical (n+1) c bs =
-      ⟨(step c bs).entry :: (run P .canonical n .none (step c bs).rest).log,
-       (run P .canonical n .none (step c bs).rest).cache,
-       (run P .canonical n .none (step c bs).rest).rest⟩ := by
+      ⟨(step P c bs).entry :: (run P .canonical n .none (step P c bs).rest).log,
+       (run P .canonical n .none (step P c bs).rest).cache,
+       (run P .canonical n .none (step P c bs).rest).rest⟩ := by
   simp [run, h, hr, LoopForm.canonical]
 
 theorem run_succ_stop (P : Policy) (n : Nat) (c : Cache) (bs : List Behaviour) (e : ErrClass)
-    (h : (step c bs).entry.reply = .err e) (hr : P.retryable e = false) :
-    run P .canonical (n+1) c bs = ⟨[(step c bs).entry], (step c bs).cache, (step c bs).rest⟩ := by
+    (h : (step P c bs).entry.reply = .err e) (hr : P.retryable e = false) :
+    run P .canonical (n+1) c bs = ⟨[(step P c bs).entry], (step P c bs).cache, (step P c bs).rest⟩ := by
   simp [run, h, hr, LoopForm.canonical]
 
 /-- Case split of one iteration of the canonical loop. -/
 theorem run_succ_cases (P : Policy) (n : Nat) (c : Cache) (bs : List Behaviour) :
-    (run P .canonical (n+1) c bs = ⟨[(step c bs).entry], (step c bs).cache, (step c bs).rest⟩ ∧
-      ((step c bs).entry.reply = .ok ∨
-        ∃ e, (step c bs).entry.reply = .err e ∧ P.retryable e = false)) ∨
-    (∃ e, (step c bs).entry.reply = .err e ∧ P.retryable e = true ∧
+    (run P .canonical (n+1) c bs = ⟨[(step P c bs).entry], (step P c bs).cache, (step P c bs).rest⟩ ∧
+      ((step P c bs).entry.reply = .ok ∨
+        ∃ e, (step P c bs).entry.reply = .err e ∧ P.retryable e = false)) ∨
+    (∃ e, (step P c bs).entry.reply = .err e ∧ P.retryable e = true ∧
       run P .canonical (n+1) c bs =
-        ⟨(step c bs).entry :: (run P .canonical n .none (step c bs).rest).log,
-         (run P .canonical n .none (step c bs).rest).cache,
-         (run P .canonical n .none (step c bs).rest).rest⟩) := by
-  cases h : (step c bs).entry.reply with
+        ⟨(step P c bs).entry :: (run P .canonical n .none (step P c bs).rest).log,
+         (run P .canonical n .none (step P c bs).rest).cache,
+         (run P .canonical n .none (step P c bs).rest).rest⟩) := by
+  cases h : (step P c bs).entry.reply with
   | ok => exact .inl ⟨run_succ_ok P _ n c bs h, .inl rfl⟩
   | err e =>
     cases hr : P.retryable e with
@@ -118,7 +118,7 @@ theorem run_dropLast_retryable (P : Policy) (n : Nat) (c : Cache) (bs : List Beh
     · rw [h]
       intro r hr'
       simp only [] at hr'
-      cases ht : (run P .canonical n .none (step c bs).rest).log with
+      cases ht : (run P .canonical n .none (step P c bs).rest).log with
       | nil => rw [ht] at hr'; simp at hr'
       | cons a l =>
         rw [ht, List.dropLast_cons_cons] at hr'
@@ -143,7 +143,7 @@ theorem run_last (P : Policy) (n : Nat) (c : Cache) (bs : List Behaviour) (r : R
       · exact .inr (.inl hc)
     · rw [h'] at h ⊢
       simp only [] at h ⊢
-      cases ht : (run P .canonical n .none (step c bs).rest).log with
+      cases ht : (run P .canonical n .none (step P c bs).rest).log with
       | nil =>
         rw [ht] at h
         simp at h
@@ -154,7 +154,7 @@ theorem run_last (P : Policy) (n : Nat) (c : Cache) (bs : List Behaviour) (r : R
         | succ m => exact absurd ht (hl m _ _)
       | cons a l =>
         rw [ht] at h
-        have h2 : (run P .canonical n .none (step c bs).rest).log.getLast? = some r := by
+        have h2 : (run P .canonical n .none (step P c bs).rest).log.getLast? = some r := by
           rw [ht]; simpa [List.getLast?_cons_cons] using h
         rcases ih _ _ h2 with h3 | h3 | ⟨h3, h4⟩
         · exact .inl h3
@@ -180,8 +180,8 @@ theorem mem_dropLast_or_last {α} (l : List α) (x : α) (h : x ∈ l) :
 
 /-! ### recovery -/
 
-theorem step_healthy_ok (c : Cache) (bs : List Behaviour) (hc : c ≠ .dead) (hb : healthy bs) :
-    (step c bs).entry.reply = .ok ∧ (step c bs).cache = .live ∧ healthy (step c bs).rest := by
+theorem step_healthy_ok (P : Policy) (c : Cache) (bs : List Behaviour) (hc : c ≠ .dead) (hb : healthy bs) :
+    (step P c bs).entry.reply = .ok ∧ (step P c bs).cache = .live ∧ healthy (step P c bs).rest := by
   cases bs with
   | nil => cases c <;> simp_all [step, healthy]
   | cons b bs' =>
@@ -194,28 +194,31 @@ theorem run_healthy_ok (P : Policy) (lf : LoopForm) (n : Nat) (c : Cache) (bs : 
     (hc : c ≠ .dead) (hb : healthy bs) :
     (run P lf (n+1) c bs).log.getLast?.map (·.reply) = some .ok ∧ (run P lf (n+1) c bs).cache = .live ∧
       (run P lf (n+1) c bs).log.length = 1 := by
-  obtain ⟨h1, h2, _⟩ := step_healthy_ok c bs hc hb
+  obtain ⟨h1, h2, _⟩ := step_healthy_ok P c bs hc hb
   rw [run_succ_ok P lf n c bs h1]
   simp [h1, h2]
 
-theorem step_dead (bs : List Behaviour) :
-    (step .dead bs).entry = ⟨none, .err deadClientError⟩ ∧ (step .dead bs).cache = .dead ∧
-      (step .dead bs).rest = bs := by
+theorem step_dead (P : Policy) (bs : List Behaviour) :
+    (step P .dead bs).entry = ⟨none, .err (deadClientError P)⟩ ∧ (step P .dead bs).cache = .dead ∧
+      (step P .dead bs).rest = bs := by
   simp [step]
 
 /-! ### what the property theorems quantify over -/
 
-/-- The two extracted tables (`Fleet`, `AsyncFleet`). -/
-def policies : List Policy := [Gen.Fleet.policy, Gen.Fleet.asyncPolicy]
+/-- The two extracted tables (`Fleet`, `AsyncFleet`), each with every member of the extracted set of
+error kinds a dead cached client of that fleet can yield. -/
+def policies : List Policy :=
+  Gen.Fleet.deadKinds.map (fun k => { Gen.Fleet.policy with deadKind := k }) ++
+  Gen.Fleet.asyncDeadKinds.map (fun k => { Gen.Fleet.asyncPolicy with deadKind := k })
 
 /-- The four extracted loops (blocking json/message, async json/message). -/
 def loops : List LoopForm :=
   [Gen.Fleet.loopJson, Gen.Fleet.loopMessage, Gen.Fleet.asyncLoopJson, Gen.Fleet.asyncLoopMessage]
 
-/-- The cache left behind by an arbitrary history of calls (each with its own `max_attempts` and its
-own list of node behaviours). -/
-def cacheAfter (P : Policy) (lf : LoopForm) : Cache → List (Nat × List Behaviour) → Cache
+/-- The cache left behind by an arbitrary history of calls, each with its own `max_attempts`, its own
+list of node behaviours and its own policy (in particular its own dead-client error kind). -/
+def cacheAfter (lf : LoopForm) : Cache → List (Policy × Nat × List Behaviour) → Cache
   | c, [] => c
-  | c, (max, bs) :: h => cacheAfter P lf (call P lf max c bs).cache h
+  | c, (P, max, bs) :: h => cacheAfter lf (call P lf max c bs).cache h
 
 end Repe.Fleet
